@@ -2,6 +2,7 @@
 Oracle: the invariants themselves, checked online over every popped occurrence."""
 import datetime as D
 import json
+import re
 import zoneinfo
 
 from .. import build, evgen, rfc5545
@@ -86,11 +87,39 @@ def _gap_near(zone, a, b):
     return False
 
 
+def _only_at_refill(srv, text, meta, got, i):
+    """the listed finding is a matter of where the cache refill falls: started from an occurrence a little earlier, the
+    same stretch lies inside one fill and must come out in order; if it does not, this is something else"""
+    z = zoneinfo.ZoneInfo(meta["tzid"])
+    for back in (12, 20, 30, 5):
+        if i - back < 0:
+            continue
+        u = got[i - back]
+        loc = u.replace(tzinfo=D.timezone.utc).astimezone(z)
+        naive = loc.replace(tzinfo=None)
+        # a start that exists exactly once
+        if naive.replace(tzinfo=z, fold=0).utcoffset() != naive.replace(tzinfo=z, fold=1).utcoffset():
+            continue
+        if naive.replace(tzinfo=z).astimezone(D.timezone.utc).replace(tzinfo=None) != u:
+            continue
+        t2 = re.sub(r"^DTSTART[^\n]*$", "DTSTART;TZID=%s:%s" % (meta["tzid"], naive.strftime("%Y%m%dT%H%M%S")), text, flags=re.M)
+        t2 = re.sub(r";COUNT=\d+", "", t2)
+        try:
+            g2, e2, m2 = parse_occ(srv.case("n=55 style=pop budget=15000", t2))
+        except HarnessCrash:
+            return False
+        g2 = [x for x in g2 if not isinstance(x, tuple)]
+        if len(g2) < back + 3:
+            return False
+        return all(x < y for x, y in zip(g2, g2[1:]))
+    return False
+
+
 def _dt(x):
     return x if isinstance(x, D.datetime) else D.datetime.combine(x, D.time(0, 0, 0))
 
 
-def check_stream(part, text, meta, got, ended, mon, lib, npop):
+def check_stream(part, text, meta, got, ended, mon, lib, npop, srv=None):
     fails = []
     for g in got:
         if isinstance(g, tuple):
@@ -110,7 +139,8 @@ def check_stream(part, text, meta, got, ended, mon, lib, npop):
             # a wall-clock time inside a spring-forward gap is placed like an explicit DATE-TIME (RFC 5545: offset from before
             # the gap) and so coincides with a later, existing wall-clock time; the copies are merged when they meet in one
             # cache fill and come out of order when a refill separates them (listed finding, same refill limitation)
-            if kind == "not-increasing" and meta["tzid"] and isinstance(a, D.datetime) and _gap_near(meta["tzid"], a, b):
+            if kind == "not-increasing" and meta["tzid"] and isinstance(a, D.datetime) and _gap_near(meta["tzid"], a, b) \
+               and len(meta["rules"]) == 1 and srv is not None and _only_at_refill(srv, text, meta, got, i):
                 kind = "not-increasing/dst-gap"
             fails.append((kind, "%s then %s (positions %d, %d)" % (a, b, i, i + 1)))
             break
@@ -189,6 +219,25 @@ def gen_dst(rng):
     return text, meta
 
 
+def gen_tz_until(rng):
+    """a TZID event whose UNTIL falls among its occurrences: UNTIL is given in UTC, the rule works on wall-clock time"""
+    import datetime as D
+    zone = rng.choice(["America/New_York", "America/Los_Angeles", "Europe/Berlin", "Asia/Tokyo", "Australia/Sydney", "Asia/Kolkata",
+                       "America/St_Johns", "Pacific/Auckland", "America/Sao_Paulo"])
+    z = zoneinfo.ZoneInfo(zone)
+    dtstart = D.datetime(rng.randint(1975, 2036), rng.randint(1, 12), rng.randint(1, 28), rng.randint(0, 23), rng.choice([0, 15, 30]), 0)
+    rule = rng.choice(["FREQ=HOURLY", "FREQ=MINUTELY;INTERVAL=30", "FREQ=DAILY;BYHOUR=%s" % ",".join(map(str, sorted(rng.sample(range(24), 4)))),
+                       "FREQ=HOURLY;INTERVAL=3", "FREQ=DAILY"])
+    start_utc = dtstart.replace(tzinfo=z).astimezone(D.timezone.utc).replace(tzinfo=None)
+    until = start_utc + D.timedelta(hours=rng.randint(1, 72), minutes=rng.choice([0, 0, 1, 29, 59]))
+    rule += ";UNTIL=" + until.strftime("%Y%m%dT%H%M%SZ")
+    r = {"freq": rule.split(";")[0].split("=")[1]}
+    text = "\n".join(["BEGIN:VCALENDAR", "VERSION:2.0", "BEGIN:VEVENT", "UID:ev@verif", "SUMMARY:x",
+                      "DTSTART;TZID=%s:%s" % (zone, dtstart.strftime("%Y%m%dT%H%M%S")), "RRULE:" + rule, "END:VEVENT", "END:VCALENDAR", ""])
+    meta = {"dtstart": dtstart, "is_date": False, "tzid": zone, "dtscale": None, "rules": [rule], "rule_objs": [r], "untils": [until]}
+    return text, meta
+
+
 def worker(args):
     root, seed, tier, wid, nw, ncases = args
     part = Part()
@@ -204,6 +253,9 @@ def worker(args):
             elif fam < 0.13:
                 text, meta = gen_dst(rng)
                 part.count("dst_change_rules")
+            elif fam < 0.17:
+                text, meta = gen_tz_until(rng)
+                part.count("tzid_until_rules")
             else:
                 text, meta = evgen.gen_event(rng, odd=True)
             npop = rng.choice([70, 200, 600]) if tier == "quick" else rng.choice([200, 600, 2000, 5000])
@@ -220,7 +272,7 @@ def worker(args):
             part.count("refills_crossed", len(got) // 63)
             if len(got) >= 2:
                 part.nontrivial.add(sig(meta))
-            fails = check_stream(part, text, meta, got, ended, mon, lib, npop)
+            fails = check_stream(part, text, meta, got, ended, mon, lib, npop, srv)
             if len(meta["rules"]) > 1 and any(k == "not-increasing" for k, _ in fails):
                 # in a merged event the refills of the single rules fall anywhere: look at each rule on its own
                 kinds = set()
@@ -232,9 +284,10 @@ def worker(args):
                         kinds.add("crash")
                         continue
                     m1meta = dict(meta, rules=[t], rule_objs=[{}], untils=[None])
-                    kinds |= {k for k, _ in check_stream(part, solo, m1meta, g1, e1, None, lib, npop) if k.startswith("not-increasing")}
-                if kinds == {"not-increasing/cross-period"}:
-                    fails = [(("not-increasing/cross-period", d + " (the single rule shows it at its own refill)") if k == "not-increasing" else (k, d))
+                    kinds |= {k for k, _ in check_stream(part, solo, m1meta, g1, e1, None, lib, npop, srv) if k.startswith("not-increasing")}
+                if len(kinds) == 1 and kinds <= {"not-increasing/cross-period", "not-increasing/dst-gap"}:
+                    one = next(iter(kinds))
+                    fails = [((one, d + " (the single rule shows it at its own refill)") if k == "not-increasing" else (k, d))
                              for k, d in fails]
             for kind, detail in fails:
                 part.violation(kind_key(meta, kind), {"input": text, "n": npop, "style": style, "detail": detail,
